@@ -269,6 +269,15 @@ func (w *pWorld) opRelease(pod string) {
 		w.record(pEvent{kind: "env", text: fmt.Sprintf("pl.relreq %s %s %s", pod, eniID, idsStr(ips))})
 	}
 	delete(w.held, pod)
+	if w.lastRel == nil {
+		w.lastRel = map[string]map[string][]int{}
+	}
+	w.lastRel[pod] = rm
+	w.doRelease(pod, rm, res)
+	w.c.Count("release")
+}
+
+func (w *pWorld) doRelease(pod string, rm map[string][]int, res []eni.NetworkResource) {
 	done := make(chan struct{})
 	go func() {
 		defer close(done)
@@ -280,7 +289,42 @@ func (w *pWorld) opRelease(pod string) {
 	case <-time.After(10 * time.Second):
 		w.violate("C01/harness/release-hang", "Release did not return")
 	}
-	w.c.Count("release")
+}
+
+// opRepeatRelease: the container runtime repeats a DEL it has already been answered (the daemon could not delete its record,
+// say): the same request once more, after the addresses may have gone to other pods.  Not issued while the pod itself holds one
+// of them again (then it is that pod's own new binding the request names).
+func (w *pWorld) opRepeatRelease(pod string) {
+	rm := w.lastRel[pod]
+	if len(rm) == 0 {
+		return
+	}
+	var res []eni.NetworkResource
+	others := false
+	for eniID, ips := range rm {
+		lr := &eni.LocalIPResource{ENI: daemon.ENI{ID: eniID}}
+		for _, id := range ips {
+			switch w.heldBy[fmt.Sprintf("%s:%d", eniID, id)] {
+			case pod:
+				return
+			case "":
+			default:
+				others = true
+			}
+			if id >= dwV6Base {
+				lr.IP.IPv6 = pAddr(id)
+			} else {
+				lr.IP.IPv4 = pAddr(id)
+			}
+		}
+		res = append(res, lr)
+		w.record(pEvent{kind: "env", text: fmt.Sprintf("pl.relreq %s %s %s", pod, eniID, idsStr(ips))})
+	}
+	w.doRelease(pod, rm, res)
+	w.c.Count("release-repeated")
+	if others {
+		w.c.Count("release-repeated-address-now-with-another-pod")
+	}
 }
 
 // releaseGate lets one gated cloud call return
@@ -426,7 +470,11 @@ func (w *pWorld) runCase(caseSeed uint64, focus string) {
 		case x < 40:
 			p := pods[r.Intn(len(pods))]
 			if !w.podBusy(p) {
-				w.opRelease(p)
+				if r.Intn(4) == 0 {
+					w.opRepeatRelease(p)
+				} else {
+					w.opRelease(p)
+				}
 			}
 		case x < 62:
 			w.releaseGate(r.Intn(100) < faultRate)
